@@ -108,6 +108,8 @@ type SNode struct {
 
 	crashOrdinal      int
 	crashBefore       bool
+	CommitOrdinal     int // Badger commits attempted by this node (instrumented storage build)
+	crashCommit       int
 	failWriteSnapshot int
 	wakeQueued        bool
 	Restarts          int
@@ -284,6 +286,29 @@ func (c *Cluster) Install() {
 	kernel.SimSetClock(simClock)
 	p2p.SimNow = simClock
 	crypto.SimRand = simRand
+	storage.SimPoint = simPoint
+}
+
+// simPoint is the storage instrumentation seam (mutex acquisitions and Badger
+// transaction boundaries, see cmd/instrument). The cluster rig uses the commit
+// points as crash points: a crash armed for the k-th upcoming commit unwinds
+// the node right before that commit, i.e. between two durable writes even when
+// both belong to one Store call.
+func simPoint(p string) {
+	c := active
+	if c == nil || c.cur == nil || !strings.HasPrefix(p, "commit:") {
+		return
+	}
+	n := c.cur
+	n.CommitOrdinal++
+	if c.Cfg.LogStore {
+		c.Trace.Logf(c.Q.Now, "commit n%d #%d %s", n.Idx, n.CommitOrdinal, p[7:])
+	}
+	if n.crashCommit != 0 && n.crashCommit == n.CommitOrdinal {
+		n.crashCommit = 0
+		c.count("crash.commit." + p[7:])
+		panic(crashSignal{n.Idx})
+	}
 }
 
 func simClock() time.Time {
@@ -402,6 +427,7 @@ func (c *Cluster) stopNode(n *SNode) {
 	n.Cache.Close()
 	n.Node, n.Store, n.W, n.Cache = nil, nil, nil, nil
 	n.crashOrdinal = 0
+	n.crashCommit = 0
 }
 
 // Crash stops a node losing all volatile state; the durable directory stays.
@@ -451,10 +477,17 @@ func (c *Cluster) CrashAtStoreCall(n *SNode, k int, before bool) {
 	n.crashBefore = before
 }
 
+// CrashAtCommit arms a crash of node n right before its k-th next Badger
+// commit (k >= 1), whichever Store call issues it.
+func (c *Cluster) CrashAtCommit(n *SNode, k int) {
+	n.crashCommit = n.CommitOrdinal + k
+}
+
 // DisarmCrashes cancels armed in-call crashes (used when faults stop).
 func (c *Cluster) DisarmCrashes() {
 	for _, n := range c.Nodes {
 		n.crashOrdinal = 0
+		n.crashCommit = 0
 	}
 }
 
